@@ -61,10 +61,13 @@ R(sn, dd) == Rat(sn, dd)
 NumOp(x) == [val |-> NumV(x),
              e |-> IF x.c = "fin" /\ x.s = 1 THEN NumE(x)
                    ELSE IF x.c = "fin" THEN NegE(NumE(Neg(x)))
-                   ELSE IF x.c = "zero" /\ x.s = 1 THEN NumE(x) ELSE NoE]
+                   ELSE IF x.c = "zero" /\ x.s = 1 THEN NumE(x)
+                   \* 2^e written as a literal: a 1 followed by e binary doublings is not a literal; use the product of literals for 2^53 only
+                   ELSE NoE]
 Nums == << Nan, Inf(1), Inf(-1), Zero(1), Zero(-1), NInt(1), NInt(-1), NInt(2), NInt(-2), NInt(3), NInt(10), NInt(9), NInt(7), NInt(-7),
            R(1, 2), R(-1, 2), R(3, 2), R(-3, 2), R(5, 2), R(-5, 2), R(7, 2), R(11, 2), R(-11, 2), R(1, 4), R(-1, 4), R(3, 4), R(-3, 4),
-           R(1, 8), R(9, 8), NInt(100), NInt(-100), R(1, 1024), NInt(4000) >>
+           R(1, 8), R(9, 8), NInt(100), NInt(-100), R(1, 1024), NInt(4000),
+           Pow2(1, 53), Pow2(1, 63), Pow2(-1, 63), Pow2(1, 64), Pow2(1, 100), Pow2(1, 1023), Pow2(1, -30), Pow2(-1, -1074) >>
 NumOps == [i \in 1..Len(Nums) |-> NumOp(Nums[i])]
 StrOp(s) == [val |-> StrV(s), e |-> Lit(s)]
 CmpStrs == << <<>>, <<"1", "0">>, <<"9">>, <<"sp", "1", "0", "sp">>, <<"a", "b", "c">>, <<"1", ".", "5">>, <<"t", "r", "u", "e">>,
